@@ -100,7 +100,8 @@ static std::string gen_key(Rng& r, std::string& cat) {
   // keys that cfitsio does not store verbatim
   cat = "odd";
   static const char* fixed[] = {"", " LEADING SP", "TRAILING SP ", "HIERARCH FOO", "HISTORY", "CONTINUE", "END", "         ", "HIERARCH  TWO BLANKS",
-                                "LONG\tKEY NAME", "LONG KEY \x7f DEL", "K\xc3\x89Y LONG NAME", " ", "ENDPOINT", "HISTORY1", "HIERARCHY", "CONTINUED"};
+                                "LONG\tKEY NAME", "LONG KEY \x7f DEL", "K\xc3\x89Y LONG NAME", " ", "ENDPOINT", "HISTORY1", "HIERARCHY", "CONTINUED",
+                                "EXTNAME", "HDUNAME", "EXTNAME1", "HDUNAMES", "EXTVER"};
   return fixed[r.below(17)];
 }
 
